@@ -638,4 +638,44 @@ def run(tier):
                                   "completes, even without loss" % (fn12.relfile, ln, hs), file=fn12.relfile, line=ln)
                 res.instance("C16.R12", "%s:%s limbo arm (hsState %s) reachable with the DTLS version test true" % (fn12.relfile, ln, hs), reach, finding=f12)
     res.floor("C16.R12", 1 if (dl and prog.defined("USE_STATELESS_SESSION_TICKETS") and prog.defined("USE_DTLS")) else 0)
+    # ------------------------------------------------------------------ R13
+    # 'completes once datagrams are eventually delivered, by retransmission': every HelloVerifyRequest carries message_seq 0
+    # (RFC 6347 4.2.2: a client that never saw the first one still expects 0).  writeHelloVerifyRequest stores the CONSTANT 0
+    # into ssl->msn on every path to the header writer; a value copied from another counter (resendMsn was set from msn by the
+    # response encoder just before) silently loses the reset, and after one lost HelloVerifyRequest every answer is a `future
+    # message` for the client.
+    res.rule("C16.R13", "DTLS: every HelloVerifyRequest is written with message_seq 0 (constant reset before the header is written)")
+    hl = prog.by_name.get("writeHelloVerifyRequest")
+    if hl and prog.defined("USE_DTLS"):
+        fn13 = hl[0]
+        hdr = cu.find_sites(fn13, lambda m: m.get("k") == "call" and m.get("fn") == "writeRecordHeader")
+        if not hdr:
+            raise AnalysisBroken("C16.R13: writeHelloVerifyRequest no longer calls writeRecordHeader")
+        for (hb, hi, hln, hnode) in hdr:
+            def zero_store(x):
+                return any(m.get("k") == "bin" and m["op"] == "=" and cu.ftext(strip(m["l"]) or {}) == "ssl->msn" and
+                           (strip(m["r"]) or {}).get("k") == "int" and strip(m["r"])["v"] == 0 for m in walk(x))
+
+            def other_store(x):
+                return any(m.get("k") == "bin" and m["op"] in ("=", "+=", "-=") and cu.ftext(strip(m["l"]) or {}) == "ssl->msn" and
+                           not ((strip(m["r"]) or {}).get("k") == "int" and strip(m["r"])["v"] == 0) for m in walk(x)) or \
+                    any(m.get("k") == "un" and "++" in m["op"] and cu.ftext(strip(m["e"]) or {}) == "ssl->msn" for m in walk(x))
+            esc13 = cu.escapes(fn13, (fn13.entry, None), zero_store, target_expr=lambda x, hnode=hnode: any(m is hnode for m in walk(x)))
+            bad13 = None
+            if esc13 is not None:
+                bad13 = "is reachable without the store ssl->msn = 0 (via lines %s)" % [p_[1] for p_ in esc13[-5:]]
+            else:
+                # no other store of msn between the reset and the header writer
+                for (zb, zi, zln, znode) in cu.find_sites(fn13, lambda m: m.get("k") == "bin" and m["op"] == "=" and cu.ftext(strip(m["l"]) or {}) == "ssl->msn"):
+                    e2 = cu.escapes(fn13, (zb, zi), lambda x: False, target_expr=lambda x, hnode=hnode: any(m is hnode for m in walk(x)))
+                    if e2 is not None and not zero_store(znode):
+                        bad13 = "follows a store of a non-constant to ssl->msn at line %s" % zln
+            f13 = None
+            if bad13:
+                f13 = Finding(PROP, "C16.R13", fn13.name, "HelloVerifyRequest not written with message_seq 0",
+                              "%s:%s writeHelloVerifyRequest(): writeRecordHeader() %s: a second HelloVerifyRequest (the first was lost, the "
+                              "client retransmitted its ClientHello) and everything after it carry message_seq 1, 2, ..., the client drops them "
+                              "as future messages and the handshake never completes" % (fn13.relfile, hln, bad13), file=fn13.relfile, line=hln)
+            res.instance("C16.R13", "writeHelloVerifyRequest:%s header written after ssl->msn = 0" % hln, bad13 is None, finding=f13)
+    res.floor("C16.R13", 1 if (hl and prog.defined("USE_DTLS")) else 0)
     return res.finish()
